@@ -63,31 +63,43 @@ def wordRe (initSet bodySet : List Char) (min max minLen : Nat) (maxLen : Option
   let core := wordReCore initSet bodySet min max minLen maxLen
   if asKeyword then .cat .wb (catApp core .wb) else core
 
+/-- `self.initChars` (core.py:2857-2864): `set(initChars) - set(excludeChars)` -/
+def initSetOf (a : WordArgs) : List Char :=
+  sortU (if a.excl.isEmpty then a.init else removeAll a.init a.excl)
+
+/-- `bodyChars` after `bodyChars = "".join(set(bodyChars) - excludeChars_set)`, done only
+    `if excludeChars:` and `if bodyChars:` (core.py:2858-2862) -/
+def bodyArg (a : WordArgs) : List Char :=
+  if !a.excl.isEmpty && !a.body.isEmpty then removeAll a.body a.excl else a.body
+
+/-- `self.bodyChars` (core.py:2866-2871): `if bodyChars:` is tested again, so an emptied body falls back
+    to the initial characters -/
+def bodySetOf (a : WordArgs) : List Char :=
+  if (bodyArg a).isEmpty then initSetOf a else sortU (bodyArg a)
+
+/-- the local `min` / `max` after `if exact > 0: min = max = exact` (core.py:2893-2896) -/
+def effMin (a : WordArgs) : Nat := if a.exact > 0 then a.exact else a.min
+def effMax (a : WordArgs) : Nat := if a.exact > 0 then a.exact else a.max
+
+/-- `self.maxLen` (`none` = `_MAX_INT`) -/
+def maxLenOf (a : WordArgs) : Option Nat := if effMax a > 0 then some (effMax a) else none
+
+/-- core.py:2908-2954: the regex is built iff no blank is in the sets and `re.compile` succeeds.
+    `re.compile` raises only for the empty leading class `[]` directly followed by the quantifier
+    (same set); `[][bc]*` compiles (to a different language: known finding word_empty_init_regex;
+    the harness keeps away from an empty initSet with a different body) -/
+def reOf (a : WordArgs) : Option Re :=
+  if (initSetOf a).contains ' ' || (bodySetOf a).contains ' ' then none
+  else if (initSetOf a).isEmpty then none
+  else some (wordRe (initSetOf a) (bodySetOf a) (effMin a) (effMax a) (effMin a) (maxLenOf a) a.asKeyword)
+
 /-- `Word.__init__`; `none` = `ValueError`. -/
 def mkWord (a : WordArgs) : Option Word :=
   if a.init.isEmpty then none
-  else
-    let initSet := sortU (if a.excl.isEmpty then a.init else removeAll a.init a.excl)
-    -- `bodyChars = "".join(set(bodyChars) - excludeChars_set)` only `if bodyChars:`
-    let body := if !a.excl.isEmpty && !a.body.isEmpty then removeAll a.body a.excl else a.body
-    -- `if bodyChars:` again (an emptied body falls back to the initial characters)
-    let bodySet := if body.isEmpty then initSet else sortU body
-    let maxSpecified := a.max > 0
-    if a.min < 1 then none
-    else if maxSpecified && a.min > a.max then none
-    else
-      let min := if a.exact > 0 then a.exact else a.min
-      let max := if a.exact > 0 then a.exact else a.max
-      let minLen := min
-      let maxLen := if max > 0 then some max else none
-      let re :=
-        if initSet.contains ' ' || bodySet.contains ' ' then none
-        -- `re.compile` raises only for the empty leading class `[]` directly followed by the
-        -- quantifier (same set); `[][bc]*` compiles (to a different language: known finding
-        -- word_empty_init_regex; the harness keeps away from empty initSet)
-        else if initSet.isEmpty then none
-        else some (wordRe initSet bodySet min max minLen maxLen a.asKeyword)
-      some { initSet, bodySet, minLen, maxLen, maxSpecified, asKeyword := a.asKeyword, re }
+  else if a.min < 1 then none
+  else if a.max > 0 && a.min > a.max then none
+  else some { initSet := initSetOf a, bodySet := bodySetOf a, minLen := effMin a, maxLen := maxLenOf a,
+              maxSpecified := a.max > 0, asKeyword := a.asKeyword, re := reOf a }
 
 /-- outcome of a `parseImpl`: end location or failure (ParseException; `instring[loc]` IndexError at
     the end of the text is converted to ParseException by `_parseNoCache`) -/
